@@ -255,6 +255,9 @@ type b09Run struct {
 type b09Extra struct {
 	withSCI []*descriptorpb.FileDescriptorProto // form q
 	linked  []*descriptorpb.FileDescriptorProto // form P (outputs of a previous compilation)
+	presQ   []parser.Result                     // form Q
+	presT   []parser.Result                     // form T
+	lres    []linker.File                       // form R
 	wire    []*descriptorpb.FileDescriptorProto // form B (form P as loaded from its wire encoding: custom options are unknown bytes)
 	hand    []*descriptorpb.FileDescriptorProto // form H (form P with the propagated map key/value features stripped)
 	lfiles  []linker.File                       // form L
@@ -290,6 +293,16 @@ func (ws *b09WS) compile(asg string, mode protocompile.SourceInfoMode, ex *b09Ex
 			return protocompile.SearchResult{Proto: ex.hand[i]}, nil
 		case 'B':
 			return protocompile.SearchResult{Proto: ex.wire[i]}, nil
+		case 'Q':
+			return protocompile.SearchResult{ParseResult: ex.presQ[i]}, nil
+		case 'T':
+			return protocompile.SearchResult{ParseResult: ex.presT[i]}, nil
+		case 'R':
+			pr, ok := ex.lres[i].(parser.Result)
+			if !ok {
+				return protocompile.SearchResult{}, fmt.Errorf("prior result is not a parser.Result")
+			}
+			return protocompile.SearchResult{ParseResult: pr}, nil
 		case 'L':
 			return protocompile.SearchResult{Desc: ex.lfiles[i]}, nil
 		case 'D':
@@ -337,6 +350,16 @@ func (ws *b09WS) extraSnap(k int, e *b09Extra) []string {
 		}
 		if e.wire != nil {
 			out = append(out, fmt.Sprintf("B%d.%d:%s", k, i, b09Digest(b09Marshal(e.wire[i]))))
+		}
+		if e.presQ != nil {
+			out = append(out, fmt.Sprintf("Q%d.%d:%s", k, i, b09ResultSnapshot(e.presQ[i])))
+		}
+		if e.presT != nil {
+			out = append(out, fmt.Sprintf("T%d.%d:%s", k, i, b09ResultSnapshot(e.presT[i])))
+		}
+		if e.lres != nil {
+			full, _ := b09FileDigests(e.lres[i])
+			out = append(out, fmt.Sprintf("R%d.%d:%s", k, i, full))
 		}
 		if e.lfiles != nil {
 			full, _ := b09FileDigests(e.lfiles[i])
@@ -659,8 +682,13 @@ func (e *b09Engine) formsOp(kind string, w []string) string {
 		var refs []string
 		for i, f := range ref.files {
 			full, nosci := b09FileDigests(f)
-			refs = append(refs, full+"/"+nosci+"/"+b09CanonDigest(f))
+			if kind == "relink" {
+				refs = append(refs, full+"/"+nosci+"/"+b09CanonDigest(f)) // canonical form: only form B needs it
+			} else {
+				refs = append(refs, full+"/"+nosci)
+			}
 			fdp := protoutil.ProtoFromFileDescriptor(f)
+			priorP := fdp
 			if kind == "forms" {
 				// form q: the unlinked proto carrying source code info. Under mode "none" it
 				// carries the standard source info, which task.link must strip.
@@ -679,11 +707,37 @@ func (e *b09Engine) formsOp(kind string, w []string) string {
 					q.SourceCodeInfo = proto.Clone(sci).(*descriptorpb.SourceCodeInfo)
 				}
 				ex.withSCI = append(ex.withSCI, q)
+				// ParseResult-side forms that already carry source code info:
+				// Q = parser.ResultWithoutAST over the output of a prior compilation with source info,
+				// T = a parser.ResultFromAST result (with AST) to whose proto source info was attached,
+				// R = the prior linker.Result itself handed back as a parse result.
+				prior := fdp
+				if mode == 0 && stdRef != nil && stdRef.err == nil {
+					prior = protoutil.ProtoFromFileDescriptor(stdRef.files[i])
+				}
+				ex.presQ = append(ex.presQ, parser.ResultWithoutAST(proto.Clone(prior).(*descriptorpb.FileDescriptorProto)))
+				var t parser.Result
+				if a, err := parser.Parse(ws.paths[i], strings.NewReader(ws.texts[i]), reporter.NewHandler(nil)); err == nil {
+					if r, err := parser.ResultFromAST(a, true, reporter.NewHandler(nil)); err == nil {
+						if sci != nil {
+							r.FileDescriptorProto().SourceCodeInfo = proto.Clone(sci).(*descriptorpb.SourceCodeInfo)
+						}
+						t = r
+					}
+				}
+				if t == nil {
+					return "rejected parse"
+				}
+				ex.presT = append(ex.presT, t)
+				ex.lres = append(ex.lres, f)
+				priorP = prior
 			}
 			if kind == "relink" || kind == "relinkd" || kind == "forms" {
 				// form P: the output of a previous compilation; form H: the same with the
 				// features that were propagated to synthetic map key/value fields removed again
-				ex.linked = append(ex.linked, proto.Clone(fdp).(*descriptorpb.FileDescriptorProto))
+				// (under mode "none" the forms engine supplies P with the standard source info,
+				// which must be stripped)
+				ex.linked = append(ex.linked, proto.Clone(priorP).(*descriptorpb.FileDescriptorProto))
 				ex.hand = append(ex.hand, b09StripPropagated(fdp))
 				ex.wire = append(ex.wire, b09WireLoaded(fdp))
 			}
@@ -725,7 +779,8 @@ func (e *b09Engine) formsOp(kind string, w []string) string {
 				ex.dfiles = append(ex.dfiles, d)
 			}
 		}
-		asgs := b09Assignments(alpha, n, spec)
+		noConc := strings.HasSuffix(spec, "n") // spec suffix n: no concurrent batch
+		asgs := b09Assignments(alpha, n, strings.TrimSuffix(spec, "n"))
 		if asgs == nil {
 			return "bad-op"
 		}
@@ -773,7 +828,13 @@ func (e *b09Engine) formsOp(kind string, w []string) string {
 			ws.aliases(a, ex, run, &aliasMu, &X)
 			if (kind == "relink" || kind == "relinkd") && mi == 0 && a == strings.Repeat("P", n) {
 				if run.err != nil {
-					return "relink-rejected " + b09ErrClass(run.err)
+					// the re-link failed: the failure is reported through the ERR digest of this
+					// assignment (oracle verdict relink-rejected); the projection falls back to
+					// the first compilation's so that the remaining observations stay readable
+					for _, f := range ref.files {
+						proj = append(proj, b09ProjFile(protoutil.ProtoFromFileDescriptor(f)))
+					}
+					continue
 				}
 				for _, f := range run.files {
 					proj = append(proj, b09ProjFile(protoutil.ProtoFromFileDescriptor(f)))
@@ -790,12 +851,15 @@ func (e *b09Engine) formsOp(kind string, w []string) string {
 		// concurrent reuse: the same supplied objects in several compilations at once
 		var C []string
 		conc := asgs
+		if noConc {
+			conc = nil
+		}
 		if len(conc) > 16 {
 			conc = conc[:16]
 			if kind == "forms" {
-				conc = append(conc[:10:10], b09LinkedAssignments(n)...)
-				if len(conc) > 18 {
-					conc = conc[:18]
+				conc = append(conc[:8:8], b09LinkedAssignments(n)...)
+				if len(conc) > 22 {
+					conc = conc[:22]
 				}
 			}
 		}
@@ -874,6 +938,10 @@ func (ws *b09WS) aliases(asg string, ex *b09Extra, run b09Run, mu *sync.Mutex, o
 			sup = ex.hand[i]
 		case 'B':
 			sup = ex.wire[i]
+		case 'Q':
+			sup = ex.presQ[i].FileDescriptorProto()
+		case 'T':
+			sup = ex.presT[i].FileDescriptorProto()
 		default:
 			continue
 		}
@@ -890,7 +958,22 @@ func (ws *b09WS) aliases(asg string, ex *b09Extra, run b09Run, mu *sync.Mutex, o
 // b09LinkedAssignments: the assignments that use already-linked protos (P) and their
 // hand-stripped variants (H): uniform, and one file at a time among source files.
 func b09LinkedAssignments(n int) []string {
-	out := []string{strings.Repeat("P", n), strings.Repeat("H", n)}
+	out := []string{strings.Repeat("P", n), strings.Repeat("H", n), strings.Repeat("Q", n), strings.Repeat("T", n), strings.Repeat("R", n)}
+	if n > 1 {
+		for i := 0; i < n; i++ {
+			for _, c := range []byte{'Q', 'T'} {
+				a := []byte(strings.Repeat("s", n))
+				a[i] = c
+				out = append(out, string(a))
+			}
+		}
+		// the last file (nothing imports it) as Q / T on top of already linked inputs
+		for _, c := range []byte{'Q', 'T'} {
+			b := []byte(strings.Repeat("P", n))
+			b[n-1] = c
+			out = append(out, string(b))
+		}
+	}
 	if n > 1 {
 		for i := 0; i < n; i++ {
 			for _, c := range []byte{'P', 'H'} {
@@ -1891,6 +1974,48 @@ func b09DerivedNames() [][]*b09N {
 				b09File("b.proto", syn, "q", b09Leaf('I', "a.proto"), b09Msg("B", mapf("int32", "p.A", set[0], 1), mapf("string", "string", set[1], 2))))
 		}
 	}
+	// pairs of fields whose DEFAULT JSON names collide (a warning in proto2 and under
+	// json_format = LEGACY_BEST_EFFORT, an error otherwise), with and without an explicit
+	// json_name on one of them; enum values that collide after prefix stripping / camel-casing;
+	// two fields that derive the same map entry name
+	jfld := func(lbl, name string, num int, json string) *b09N {
+		return &b09N{K: 'f', A: []string{lbl, "int32", name, strconv.Itoa(num), json}}
+	}
+	for _, pr := range [][2]string{{"foo_bar", "fooBar"}, {"foo_bar", "foo__bar"}, {"a_b", "aB"}, {"x_1", "x1"}, {"_a", "A"}, {"ab_", "ab"}, {"foo_bar", "foo_Bar"}} {
+		for _, js := range [][2]string{{"-", "-"}, {"other", "-"}, {"-", "other"}, {"J1", "J2"}, {"same", "same"}} {
+			for _, syn := range []string{"2", "e", "3"} {
+				lbl := "o"
+				var head []*b09N
+				if syn != "2" {
+					lbl = "n"
+				}
+				if syn == "e" {
+					head = []*b09N{b09Leaf('o', "features.json_format = LEGACY_BEST_EFFORT")}
+				}
+				body := append(append([]*b09N{}, head...), b09Msg("A", jfld(lbl, pr[0], 1, js[0]), jfld(lbl, pr[1], 2, js[1]), jfld("r", "third", 3, "-")))
+				one(b09File("a.proto", syn, "p", body...))
+				if syn == "e" {
+					// message-level instead of file-level
+					one(b09File("a.proto", syn, "p", b09Msg("A", b09Leaf('o', "features.json_format = LEGACY_BEST_EFFORT"),
+						jfld(lbl, pr[0], 1, js[0]), &b09N{K: 'm', A: []string{"string", "int32", pr[1], "2", js[1]}})))
+				}
+			}
+		}
+	}
+	for _, vs := range [][]string{{"E_FOO", "FOO"}, {"E_A_B", "E_AB"}, {"E_FOO", "e_foo"}, {"FOO_BAR", "FOOBAR"}, {"E_X", "EX"}} {
+		for _, syn := range []string{"2", "3", "e"} {
+			var vals []*b09N
+			for i, v := range vs {
+				vals = append(vals, &b09N{K: 'V', A: []string{v, strconv.Itoa(i)}})
+			}
+			one(b09File("a.proto", syn, "p", &b09N{K: 'N', A: []string{"E"}, Body: vals}, b09Msg("A", b09Fld("r", "E", "e", 1))))
+		}
+	}
+	for _, syn := range []string{"2", "3", "e"} {
+		one(b09File("a.proto", syn, "p", b09Msg("A", b09Fld("r", "int32", "Foos", 1), mapf("string", "string", "foos", 2))))
+		one(b09File("a.proto", syn, "p", b09Msg("A", mapf("string", "string", "foos", 1), b09Fld("r", "int32", "Foos", 2))))
+		one(b09File("a.proto", syn, "p", b09Msg("A", b09Fld("r", "A", "foo_s", 1), mapf("string", "A", "foos", 2))))
+	}
 	// an editions file with a CUSTOM feature (extension of google.protobuf.FeatureSet) set on a
 	// map field, a plain field and at file level: the feature value is propagated to the
 	// synthetic key/value fields on every compile
@@ -1924,6 +2049,8 @@ func b09Modes(tier string, i int) string {
 		return "0,1,2"
 	case 3:
 		return "0,1,6"
+	case 4:
+		return "1,0" // the supplied objects go through a compilation WITH source info first
 	}
 	return "0,1"
 }
@@ -1995,6 +2122,9 @@ func (e *b09Engine) Gen(r *Rand, tier string) [][]string {
 			spec := "x"
 			if len(ws) > 3 || tier != "thorough" && len(ws) == 3 && i >= nSmall {
 				spec = fmt.Sprintf("s%d:%d", 12, r.U64()%1000000)
+			}
+			if tier != "thorough" && i%2 == 1 {
+				spec += "n" // quick tier: the concurrent batch on every second workspace only
 			}
 			add("forms " + b09Modes(tier, i) + " " + spec + " " + b09EncodeWS(ws))
 			if i%4 == 0 {
